@@ -486,6 +486,40 @@ fn enumerate_micro() -> Vec<Vec<String>> {
     out
 }
 
+/// two callers: every interleaving of their first 5 steps each (up to and including the ticket CAS, so
+/// that every order of the two loads and the two CASes — hence every CAS retry — occurs), then both
+/// run to the end of their sends, the callee answers both, both poll
+fn enumerate_two() -> Vec<Vec<String>> {
+    let mut out = Vec::new();
+    let mut n = 70_000;
+    // bit i of `mask` (10 bits, exactly 5 set) = who takes step i
+    for mask in 0u32..1024 {
+        if mask.count_ones() != 5 {
+            continue;
+        }
+        let mut ops = vec![format!("case {n} 2")];
+        n += 1;
+        for i in 0..10 {
+            ops.push(format!("step c{}", (mask >> i) & 1));
+        }
+        for c in 0..2 {
+            for _ in 0..6 {
+                ops.push(format!("step c{c}"));
+            }
+        }
+        ops.push("rx handle r".into());
+        ops.push("rx handle d".into());
+        for c in 0..2 {
+            for _ in 0..2 {
+                ops.push(format!("step c{c}"));
+            }
+        }
+        ops.push("end".into());
+        out.push(ops);
+    }
+    out
+}
+
 fn gen_case(rng: &mut Rng, n: u64) -> Vec<String> {
     let k = rng.range(1, 3);
     let mut ops = vec![format!("case {n} {k}")];
@@ -574,6 +608,10 @@ fn main() {
             for ops in enumerate_micro() {
                 run_case(&ops, &mut log, &mut st);
                 st.bump("enumerated_micro_exit_schedules");
+            }
+            for ops in enumerate_two() {
+                run_case(&ops, &mut log, &mut st);
+                st.bump("enumerated_two_caller_schedules");
             }
         }
         for n in 0..cases {
